@@ -60,7 +60,7 @@ def proof_stage(chk, pid, theorems=None, requires=None):
             chk, coq_dirs=[BASE, CODEC, WRITERS, READERS, E2E], build_dir=E2E,
             qflags="-Q ../base FlacBase -Q ../codec FlacCodec -Q ../writers FlacWriters -Q ../readers FlacReaders -Q . FlacE2E",
             requires=reqs + E2E_REQUIRES, theorems=E2E_THEOREMS_BY[pid] + thms,
-            obligation_files=[(BASE, ["Res.v", "Bits.v", "Crc.v", "Pins.v"]), (CODEC, coq_files()), (E2E, ["Bridge.v", "E2E.v", "Sample.v", "SampleE2E.v", "Success.v", "ChannelE2E.v", "ByteE2E.v", "ByteSuccess.v", "ChannelSuccess.v", "InterruptedE2E.v", "ReadBridge.v", "ReadersE2E.v", "Props_E2E.v"])],
+            obligation_files=[(BASE, ["Res.v", "Bits.v", "Crc.v", "Pins.v"]), (CODEC, coq_files()), (E2E, vlib.coq_files(E2E))],
             gen_steps=gen)
     return vlib.proof_stage(
         chk, coq_dirs=[BASE, CODEC], build_dir=CODEC, qflags="-Q ../base FlacBase -Q . FlacCodec",
